@@ -75,6 +75,44 @@ def _c11_tags(toks, impl):
     return t
 
 
+def _c14_tags(toks, impl):
+    if toks[1] == "pset":
+        return ["request=pset"]
+    ops = toks[2].split(";")
+    t = ["request=hist", "history-length=%s" % ("1-5" if len(ops) <= 5 else ("6-15" if len(ops) <= 15 else "16-25"))]
+    for o in set(x.split(".")[0] for x in ops):
+        t.append("op=" + o)
+    t.append("other=" + ("prefix" if toks[3][0] == "P" else "extension" if toks[3][0] == "X" else "literal"))
+    return t
+
+
+def _c15_tags(toks, impl):
+    if toks[1] == "ham":
+        n = int(toks[8])
+        return ["request=ham", "ham-length=%s" % ("<1024" if n < 1024 else ">=1024"), "ham-rc=%s%s" % (toks[5], toks[7])]
+    ops = toks[3].split(",")
+    t = ["request=slice", "depth=%d" % len(ops), "ktype=" + toks[4]]
+    t.append("rc-flips=%d" % sum(1 for o in ops if o == "r"))
+    t.append("len>=256" if len(toks[2]) >= 256 else "len<256")
+    if impl == "panic":
+        t.append("answer=panic")
+    return t
+
+
+def _c15_shrink(toks):
+    out = []
+    if toks[1] == "slice":
+        ops = toks[3].split(",")
+        for i in range(len(ops)):
+            if len(ops) > 1:
+                out.append(toks[:3] + [",".join(ops[:i] + ops[i + 1:])] + toks[4:])
+        seq = toks[2]
+        for cut in (len(seq) // 2, 8, 1):
+            if cut >= 1 and len(seq) > cut:
+                out.append(toks[:2] + [seq[:-cut]] + toks[3:])
+    return out
+
+
 PROPS = {
     "C07": {
         "lean_modules": ["Dbg.Props.C07"],
@@ -138,5 +176,35 @@ PROPS = {
         "trusted_base": ["#[derive(PartialEq, Eq, Ord, Hash)] on the k-mer structs are the structural functions of the storage integer "
                          "(PhantomData contributes nothing); slice::sort/dedup/binary_search are correct for a total order"],
         "assumptions": ["arguments in range"],
+    },
+    "C14": {
+        "lean_modules": ["Dbg.Props.C14"],
+        "theorems": [],
+        "partial": [],
+        "n_quick": 8000, "n_thorough": 600000,
+        "nontrivial": lambda toks, impl: impl != "panic" and (toks[1] == "pset" or toks[2].count(";") >= 2), "tags": _c14_tags,
+        "rule": "requests `hist <ops> <other>`: 1-25 operations from push, extend (lengths aimed at len%32 in {0,1,31}), push_bytes, set_mut, "
+                "clear, blank, from_bytes, from_acgt_bytes, from_dna_string (10% non-ACGT characters); after every operation the raw "
+                "storage blocks and length are observed (serde), at the end all renderings, reverse, rc, and ==/hash/cmp against the "
+                "from_bytes route to the same bases and against `other` (random, a proper prefix, an extension by A's or random bases, "
+                "same-length for ndiffs); `pset <seqs>`: PackedDnaStringSet add/get. Non-trivial = at least 3 operations.",
+        "trusted_base": ["#[derive(PartialEq, Eq, Ord, Hash)] on DnaString are the structural functions of (storage: Vec<u64>, len); "
+                         "Vec<u64> order is lexicographic with a proper prefix first"],
+        "assumptions": ["set_mut index < len, bases < 4"],
+    },
+    "C15": {
+        "lean_modules": ["Dbg.Props.C15"],
+        "theorems": [],
+        "partial": [],
+        "n_quick": 6000, "n_thorough": 400000,
+        "nontrivial": lambda toks, impl: impl != "panic" and (toks[1] == "ham" or toks[3].count(",") >= 1), "tags": _c15_tags,
+        "shrink": _c15_shrink,
+        "rule": "requests `slice <seq> <ops> <ktype> <pos>`: a DnaString of length 0-120 (10%: 256-300), then 1-7 nested view operations "
+                "(slice(a,b), prefix, suffix, rc in any interleaving; 1/60 intervals out of range), then all renderers incl. Debug, to_owned "
+                "(raw storage), == against an owned copy, get_kmer of one of 8 k-mer types; `ham <s1> <s2> a1 r1 a2 r2 n`: hamming_dist of two "
+                "views of length n (0..200, block boundaries, 1023-2100; thorough 5000) at arbitrary offsets, either reverse-complemented, "
+                "with 0-4 differences planted at positions 0, 31, 32, 1023, 1024, n/2, n-1. Non-trivial = ham, or nesting depth >= 2.",
+        "trusted_base": [],
+        "assumptions": ["interval arguments inside the view (outside: the crate asserts; compared as panic)"],
     },
 }
